@@ -379,7 +379,11 @@ open Rivaas.LifecycleSkel
 theorem exec_mem_outs (ρ : Nat → Bool) (s : Stmt) : exec ρ s ∈ outs s := by
   induction s with
   | call n q => simp [exec, outs]
-  | ret => simp [exec, outs]
+  | ret ok => simp [exec, outs]
+  | «try» c s t e ihs iht ihe =>
+    simp only [exec, outs, List.mem_flatMap]
+    refine ⟨exec ρ s, ihs, exec ρ t, iht, exec ρ e, ihe, ?_⟩
+    cases ρ c <;> simp
   | tail n => simp [exec, outs]
   | goto l => simp [exec, outs]
   | skip => simp [exec, outs]
@@ -409,11 +413,11 @@ theorem onAll_sound (P : Out → Bool) (s : Stmt) (h : onAll P s = true) (ρ : N
 /-- after the label, on every path: the four steps of the shutdown sequence, each exactly once, in the
     order the lifecycle model follows, and only then the return — there is no early exit (K09c) -/
 theorem skel_after_every_path (l : Name) (s : Stmt) (h : onAll (afterOk l) s = true) (ρ : Nat → Bool) :
-    keep shutdownOrder (exec ρ s) = shutdownOrder ∧ (exec ρ s).fin = .ret := by
+    keep shutdownOrder (exec ρ s) = shutdownOrder ∧ ∃ ok, (exec ρ s).fin = .ret ok := by
   have := onAll_sound _ s h ρ
-  simp only [afterOk, Bool.and_eq_true, beq_iff_eq] at this
+  simp only [afterOk, Bool.and_eq_true, Bool.or_eq_true, beq_iff_eq] at this
   obtain ⟨⟨_, h2⟩, h3⟩ := this
-  refine ⟨?_, h2⟩
+  refine ⟨?_, by rcases h2 with h2 | h2 <;> exact ⟨_, h2⟩⟩
   -- filtering with the smaller core is filtering the filtered list
   have hsub : keep shutdownOrder (exec ρ s) =
       (keep (nm "abortStartup" :: nm "Reload" :: nm "executeReadyHooks" :: nm "Listen" :: shutdownOrder)
@@ -436,7 +440,7 @@ theorem skel_after_every_path (l : Name) (s : Stmt) (h : onAll (afterOk l) s = t
 theorem skel_entry_every_path (s : Stmt) (h : onAll entryOk s = true) (ρ : Nat → Bool)
     (hs : (names (exec ρ s)).contains (nm "startObservability") = true) :
     ((exec ρ s).fin = .tail (nm "runServer") ∧ keep (nm "abortStartup" :: prologue) (exec ρ s) = prologue) ∨
-    ((exec ρ s).fin = .ret ∧ (names (exec ρ s)).getLast? = some (nm "abortStartup")) := by
+    ((∃ ok, (exec ρ s).fin = .ret ok) ∧ (names (exec ρ s)).getLast? = some (nm "abortStartup")) := by
   have := onAll_sound _ s h ρ
   simp only [entryOk, hs, if_true] at this
   cases hf : (exec ρ s).fin with
@@ -446,17 +450,17 @@ theorem skel_entry_every_path (s : Stmt) (h : onAll entryOk s = true) (ρ : Nat 
     rw [hf] at this
     simp only [Bool.and_eq_true, beq_iff_eq] at this
     left; exact ⟨by rw [this.1], this.2⟩
-  | ret =>
+  | ret ok =>
     rw [hf] at this
     simp only [Bool.and_eq_true, beq_iff_eq] at this
-    right; exact ⟨rfl, this.1.1⟩
+    right; exact ⟨⟨ok, rfl⟩, this.1.1⟩
 
 /-- the event loop: an arm that returns has called `abortStartup` and nothing else of interest; an arm that
     falls through goes back into the loop having at most reloaded; the only other way out is the `goto`
     to the label after the loop — no arm "just returns" -/
 theorem skel_arm_every_path (l : Name) (s : Stmt) (h : onAll (armOk l) s = true) (ρ : Nat → Bool) :
     match (exec ρ s).fin with
-    | .ret => keep loopCore (exec ρ s) = [nm "abortStartup"]
+    | .ret _ => keep loopCore (exec ρ s) = [nm "abortStartup"]
     | .fall => keep loopCore (exec ρ s) = [nm "Reload"] ∨ keep loopCore (exec ρ s) = []
     | .goto l' => l' = l ∧ keep loopCore (exec ρ s) = []
     | .tail _ => False := by
@@ -466,20 +470,20 @@ theorem skel_arm_every_path (l : Name) (s : Stmt) (h : onAll (armOk l) s = true)
   | fall => rw [hf] at this; simpa using this
   | goto l' => rw [hf] at this; simpa using this
   | tail n => rw [hf] at this; cases this
-  | ret => rw [hf] at this; simpa using this
+  | ret ok => rw [hf] at this; simpa using this
 
 /-! ### the skeletons of the source as it is now (what the harness extracts), and as it was shipped -/
 
 def c (s : String) : Stmt := .call (nm s) []
 def cq (s q : String) : Stmt := .call (nm s) (nm q)
-def bail : Stmt := .seq (c "abortStartup") .ret
+def bail : Stmt := .seq (c "abortStartup") (.ret false)
 
 def skStart : Stmt :=
   .seq (.seq (c "startObservability") (.ite 0 bail .skip))
     (.seq (.seq (c "executeStartHooks") (.ite 1 bail .skip))
       (.seq (c "registerOpenAPIEndpoints") (.seq (c "Freeze") (.tail (nm "runServer")))))
 
-def skStartMTLS : Stmt := .seq (.seq (c "validate") (.ite 2 .ret .skip)) skStart
+def skStartMTLS : Stmt := .seq (.seq (c "validate") (.ite 2 (.ret false) .skip)) skStart
 
 def skStartTLS : Stmt :=
   .seq (.seq (c "startObservability") (.ite 0 bail .skip))
@@ -496,7 +500,7 @@ def skGo : Stmt :=
 
 def skAfter : Stmt :=
   .seq (cq "label" "shutdown") (.seq (c "executeShutdownHooks") (.seq (cq "Shutdown" "server")
-    (.seq (c "shutdownObservability") (.seq (c "executeStopHooks") .ret))))
+    (.seq (c "shutdownObservability") (.seq (c "executeStopHooks") (.ret false)))))
 
 def skNow : Skels :=
   { entries := [skStart, skStartTLS, skStartMTLS], pre := skPre, go := skGo,
@@ -505,21 +509,33 @@ def skNow : Skels :=
 /-- the obligations are met by the source as it is now (the harness re-extracts and re-checks on every run) -/
 theorem skel_now_ok : (check skNow).ok = true := by decide
 
+/-- the shared prologue moved into a helper (`if err := a.prepare(ctx); err != nil { return err }`): the
+    inlined callee's way of returning selects the branch, so the obligations are still met -/
+def skStartRefactored : Stmt :=
+  .seq (.try 0
+      (.seq (.seq (c "startObservability") (.ite 1 bail .skip))
+        (.seq (.seq (c "executeStartHooks") (.ite 2 bail .skip))
+          (.seq (c "registerOpenAPIEndpoints") (.seq (c "Freeze") (.ret true)))))
+      (.ret false) .skip)
+    (.tail (nm "runServer"))
+
+theorem skel_refactored_ok : onAll entryOk skStartRefactored = true := by decide
+
 /-- as shipped: a failing OnStart hook returned without `abortStartup` (K09b) -/
 def skStartAsShipped : Stmt :=
-  .seq (.seq (c "startObservability") (.ite 0 .ret .skip))
-    (.seq (.seq (c "executeStartHooks") (.ite 1 .ret .skip))
+  .seq (.seq (c "startObservability") (.ite 0 (.ret false) .skip))
+    (.seq (.seq (c "executeStartHooks") (.ite 1 (.ret false) .skip))
       (.seq (c "registerOpenAPIEndpoints") (.seq (c "Freeze") (.tail (nm "runServer")))))
 
 /-- as shipped: `if err := server.Shutdown(ctx); err != nil { return … }` (K09c) -/
 def skAfterAsShipped : Stmt :=
   .seq (cq "label" "shutdown") (.seq (c "executeShutdownHooks") (.seq (cq "Shutdown" "server")
-    (.seq (.ite 0 .ret .skip) (.seq (c "shutdownObservability") (.seq (c "executeStopHooks") .ret)))))
+    (.seq (.ite 0 (.ret false) .skip) (.seq (c "shutdownObservability") (.seq (c "executeStopHooks") (.ret true))))))
 
 theorem skel_asis_rejected :
     onAll entryOk skStartAsShipped = false ∧ onAll (afterOk (nm "shutdown")) skAfterAsShipped = false ∧
     -- a `return` added to the SIGHUP arm of the event loop
-    onAll (armOk (nm "shutdown")) (.seq (c "Reload") (.ite 0 .ret .skip)) = false ∧
+    onAll (armOk (nm "shutdown")) (.seq (c "Reload") (.ite 0 (.ret false) .skip)) = false ∧
     -- OnReady dispatched before the listener is bound
     onAll preOk (.seq (c "go") (.seq (cq "recv" "serverReady") (.seq (c "executeReadyHooks") (c "Listen")))) = false := by
   decide
